@@ -450,7 +450,7 @@ func c05(c *Ctx) {
 	d := dumpForms(c.Repo)
 	o.WriteFile("Tab.v", formsTab(c, d))
 	o.Stage("Tab.v")
-	o.Oblig("Tab.pass_order_ok", "Tab.info_constants_ok")
+	o.Oblig("Tab.info_constants_ok")
 	rng := NewRNG(c.Seed + 500)
 	ctors := readCtors(c.Repo)
 	opcIndexOf := map[string]int{}
@@ -646,6 +646,11 @@ func c05(c *Ctx) {
 			add(x86.MOVQ(operand.Mem{Base: b, Index: reg.R9, Scale: sc, Disp: 16}, reg.RCX))
 		}
 	}
+	// displacements at and beyond the int32 range of the encoding
+	for _, disp := range []int{1<<31 - 1, -(1 << 31), 1 << 31, 1<<32 + 8, -(1 << 31) - 16, 1 << 32} {
+		add(x86.MOVQ(operand.Mem{Base: reg.RAX, Index: reg.RCX, Scale: 8, Disp: disp}, reg.RDX))
+		add(x86.MOVQ(reg.RDX, operand.Mem{Base: reg.RBX, Disp: disp}))
+	}
 	add(x86.MOVQ(operand.NewParamAddr("x", 0), reg.RCX))
 	add(x86.MOVQ(operand.NewStackAddr(16), reg.RCX))
 	add(x86.LEAQ(operand.Mem{Base: reg.RDX, Index: reg.RDX, Scale: 8}, reg.RCX))
@@ -810,6 +815,9 @@ func classifyReject(in *inst05) string {
 		case operand.Mem:
 			if o.Index != nil && o.Scale != 1 && o.Scale != 2 && o.Scale != 4 && o.Scale != 8 {
 				return "scale-not-1248"
+			}
+			if int64(o.Disp) > 1<<31-1 || int64(o.Disp) < -(1<<31) {
+				return "displacement-outside-int32"
 			}
 			if o.Base != nil && o.Base.Kind() == reg.KindGP && o.Base.Size() != 8 {
 				return fmt.Sprintf("narrow-base-register:%d", o.Base.Size())
